@@ -125,7 +125,8 @@ DS_SHORT = []
 for k in ("setup", "client_reg", "server_login", "reg_resp"):
     H("ds_short_" + k, "h_serde::ds_short_" + k,
       "%s through a serde format whose sequences may end early (as a self-describing format does for a record lacking trailing fields): every proper prefix of an encoding is refused - no field (e.g. the fake key pair) is completed with a default" % SERDE_TYPES[k][0],
-      "every byte string of the serde length, cut at every position 0..L-1", covers=["complete ok"], timeout=1500, mem_gb=12)
+      "every byte string of the serde length, cut at every position 0..L-1", covers=["complete ok"], timeout=1500, mem_gb=12,
+      loops=[(r"derive_auth_keypair", 2), (r"derive_key", 2)])
     DS_SHORT.append("ds_short_" + k)
 H("ds_keys", "h_serde::ds_keys",
   "PublicKey / PrivateKey serde Deserialize (keypair.rs): Ok <=> valid canonical non-identity key / non-zero in-range scalar, agrees with the native decoder, re-encodes to the input",
